@@ -243,6 +243,9 @@ type wavSpec struct {
 	Bits     int  `json:"bits"`
 	Samples  int  `json:"samples"`
 	List     bool `json:"list"` // LIST/INFO chunk with an INAM string
+	// ListAfter: a second LIST/INFO chunk behind the data chunk (metadata written last, as
+	// many encoders do)
+	ListAfter bool `json:"list_after,omitempty"`
 }
 
 type wavExp struct {
@@ -282,10 +285,13 @@ func wavBuild(spec any) *genFile {
 		body = append(body, riffChunk("LIST", append([]byte("INFO"), riffChunk("INAM", append([]byte(exp.Title), 0))...))...)
 	}
 	body = append(body, riffChunk("data", exp.Samples)...)
+	if sp.ListAfter {
+		body = append(body, riffChunk("LIST", append([]byte("INFO"), riffChunk("INAM", append([]byte(exp.Title), 0))...))...)
+	}
 	exp.RiffSize = len(body)
 	data := riffChunk("RIFF", body)
-	f := &genFile{Data: data, Exp: exp, Nontriv: sp.Samples > 0 || sp.List}
-	f.Desc = fmt.Sprintf("channels=%d bits=%d samples=%d list=%v", sp.Channels, sp.Bits, sp.Samples, sp.List)
+	f := &genFile{Data: data, Exp: exp, Nontriv: sp.Samples > 0 || sp.List || sp.ListAfter}
+	f.Desc = fmt.Sprintf("channels=%d bits=%d samples=%d list=%v list_after_data=%v", sp.Channels, sp.Bits, sp.Samples, sp.List, sp.ListAfter)
 	return f
 }
 
@@ -294,7 +300,9 @@ func wavEnum(r *core.Run, emit func(any)) {
 		for _, bits := range []int{8, 16} {
 			for _, n := range []int{0, 1, 100} {
 				for _, l := range []bool{false, true} {
-					emit(&wavSpec{Channels: ch, Bits: bits, Samples: n, List: l})
+					for _, la := range []bool{false, true} {
+						emit(&wavSpec{Channels: ch, Bits: bits, Samples: n, List: l, ListAfter: la})
+					}
 				}
 			}
 		}
@@ -324,6 +332,9 @@ func wavCheck(f *genFile, o map[string]any, probe bool) []mm {
 		want = append(want, "LIST")
 	}
 	want = append(want, "data")
+	if sp.ListAfter {
+		want = append(want, "LIST")
+	}
 	if len(cs) != len(want) {
 		c.add("chunk-count", fmt.Sprintf("fq reports %d chunks, written %d", len(cs), len(want)))
 		return c.ms
